@@ -6,10 +6,15 @@ Property theorems only. The model: `Table.fmtToStr` (= `str(table.fmt)`), `Table
 `Table.applySetter` (= `table.fmt = s`), `Table.mkTable` (= `PPTable(records, fmt=s, fields=…)`),
 `Table.render` — the functions `Drv/C13.lean` executes.
 
-`Table.Reach a t`: `t` is a state of a table constructed with the arguments `a`, after any history
-of printing, `table.fmt = <any string>` and re-construction from any string.
+`Table.Reach a t`: `t` is a state of a table with the constructor arguments `a` (records, fields,
+header, footer): constructed from a format string or from column objects or — `fmt_obj=` — from
+the format of any other reachable table with the same fields, after any history of printing,
+`table.fmt = <any string>` and re-construction from any string.
 `Table.lines t`: the lines `t` prints. `Table.NameOk s`: `s` contains none of `, : ; ! / < ( )` and
-has no blank at either end (what a format string can express).
+has no blank at either end (what a format string can express). `Table.ModOk m`: the modifier `m` — free
+text for user-written field types — contains none of `, : ; ! <` and does not end in a blank (a `/`
+inside it is fine: the name ends at the *first* `/`). `Table.CustomModsOk cols`: the modifiers of the
+columns of user-written field types are `ModOk` (those the built-in types accept always are).
 -/
 namespace C13
 open Table Ak
@@ -21,7 +26,7 @@ break-by mark, width bounds; no value path) and the same limits: none when the l
 skipped nothing, `*` when a limit is absent, `first:last` otherwise. In particular the
 `(width)` suffix of a printed ranged column is accepted and ignored. -/
 theorem parse_print (f : Fmt) (hne : f.cols ≠ [])
-    (hn : ∀ c ∈ f.cols, NameOk c.field.name ∧ ∀ m, c.modifier = some m → NameOk m) :
+    (hn : ∀ c ∈ f.cols, NameOk c.field.name ∧ ∀ m, c.modifier = some m → ModOk m) :
     parseFmt (fmtToStr f) = .ok
       { cols := .explicit (f.cols.map fun c =>
           { fieldName := c.field.name, modifier := c.modifier, breakBy := c.breakBy,
@@ -40,12 +45,13 @@ names (expressible ones), `table.fmt = str(table.fmt)` is accepted and the table
 the same lines; the new format has the same fields and the same columns (modifiers, break-by marks,
 bounds; widths forgotten), and its limits act like the old ones on every body. -/
 theorem same_rendering_setter (a : CtorArgs) (specs : List FieldSpec) (t : Tbl) (ha : a.fields = some specs)
-    (hn : ∀ sp ∈ specs, NameOk sp.name) (hr : Reach a t) (hne : t.fmt.cols ≠ []) :
+    (hn : ∀ sp ∈ specs, NameOk sp.name) (hr : Reach a t) (hne : t.fmt.cols ≠ [])
+    (hmod : CustomModsOk t.fmt.cols) :
     ∃ t1, applySetter t (fmtToStr t.fmt) = .ok t1 ∧ lines t1 = lines t ∧
       t1.fmt.fields = t.fmt.fields ∧ t1.fmt.cols = t.fmt.cols.map Col.reset ∧
       ∀ tls n, applyLimits t1.fmt.limF t1.fmt.limL tls n = applyLimits t.fmt.limF t.fmt.limL tls n := by
   have hi := reach_inv a specs ha t hr
-  have hp := parseFmt_fmtToStr t.fmt hne (inv_colNameOk hi hn)
+  have hp := parseFmt_fmtToStr t.fmt hne (inv_colNameOk hi hn hmod)
   have hcols := setterCols_pcolOf t.fmt.fields t.fmt.cols hi.colsOk
   have hlim : ∀ tls n, applyLimits
       (match visOf t.fmt with | some l => l | Option.none => (t.fmt.limF, t.fmt.limL)).1
@@ -77,11 +83,12 @@ accepted and prints exactly the same lines, with the same fields and columns. (L
 of the string when the last printing skipped nothing; the new table then has none, which prints
 the same — `SkipFaithful`, an invariant of all reachable states.) -/
 theorem same_rendering_ctor (a : CtorArgs) (specs : List FieldSpec) (t : Tbl) (ha : a.fields = some specs)
-    (hn : ∀ sp ∈ specs, NameOk sp.name) (hr : Reach a t) (hne : t.fmt.cols ≠ []) (hnat : NatLim t.fmt) :
+    (hn : ∀ sp ∈ specs, NameOk sp.name) (hr : Reach a t) (hne : t.fmt.cols ≠ []) (hnat : NatLim t.fmt)
+    (hmod : CustomModsOk t.fmt.cols) :
     ∃ t2, mkTable { a with fmt := some (fmtToStr t.fmt), limits := Option.none, skip := Option.none } = .ok t2 ∧
       lines t2 = lines t ∧ t2.fmt.fields = t.fmt.fields ∧ t2.fmt.cols = t.fmt.cols.map Col.reset := by
   have hi := reach_inv a specs ha t hr
-  have hp := parseFmt_fmtToStr t.fmt hne (inv_colNameOk hi hn)
+  have hp := parseFmt_fmtToStr t.fmt hne (inv_colNameOk hi hn hmod)
   have hcols := ctorCols_pcolOf (mkFields 0 specs) t.fmt.cols (by rw [← hi.fields_eq]; exact hi.colsOk)
   have hnovp : (t.fmt.cols.map pcolOf).any (fun p => p.valuePath.isSome) = false := by
     simp [pcolOf]
@@ -112,7 +119,7 @@ same format string as `t'`: same columns with the same negotiated widths, same l
 same omission of limits. -/
 theorem format_after_print (a : CtorArgs) (specs : List FieldSpec) (t t' : Tbl) (ls : List Line)
     (ha : a.fields = some specs) (hn : ∀ sp ∈ specs, NameOk sp.name) (hr : Reach a t)
-    (ht : render t = .ok (t', ls)) :
+    (hmod : CustomModsOk t.fmt.cols) (ht : render t = .ok (t', ls)) :
     (∃ t1 t1', applySetter t (fmtToStr t.fmt) = .ok t1 ∧ render t1 = .ok (t1', ls) ∧
       fmtToStr t1'.fmt = fmtToStr t'.fmt) ∧
     (NatLim t.fmt → ∃ t2 t2',
@@ -125,7 +132,7 @@ theorem format_after_print (a : CtorArgs) (specs : List FieldSpec) (t t' : Tbl) 
     have := finalWidths_cols _ _ _ R.ws_eq
     rw [e] at this
     exact R.ws_ne (by simpa using this)
-  have hp := parseFmt_fmtToStr t.fmt hne (inv_colNameOk hi hn)
+  have hp := parseFmt_fmtToStr t.fmt hne (inv_colNameOk hi hn hmod)
   -- how the limits read back relate to the table's own
   have hvis : ∀ (dflt : Option Int × Option Int),
       (visOf t.fmt = Option.none → dflt = (t.fmt.limF, t.fmt.limL) ∨
@@ -159,7 +166,7 @@ theorem format_after_print (a : CtorArgs) (specs : List FieldSpec) (t t' : Tbl) 
             subst hv
             left; exact ⟨rfl, rfl⟩
   constructor
-  · obtain ⟨t1, h1, _, _, hc1, hl1⟩ := same_rendering_setter a specs t ha hn hr hne
+  · obtain ⟨t1, h1, _, _, hc1, hl1⟩ := same_rendering_setter a specs t ha hn hr hne hmod
     have hshape : t1.records = t.records ∧ t1.header = t.header ∧ t1.footer = t.footer ∧
         (t1.fmt.limF, t1.fmt.limL) = (match visOf t.fmt with | some l => l | Option.none => (t.fmt.limF, t.fmt.limL)) := by
       have hcols := setterCols_pcolOf t.fmt.fields t.fmt.cols hi.colsOk
@@ -175,7 +182,7 @@ theorem format_after_print (a : CtorArgs) (specs : List FieldSpec) (t t' : Tbl) 
     obtain ⟨t1', hr1, hs1⟩ := fmt_after_print hi.widths e1 e2 e3 hc1 (fun tls _ => hl1 tls _) hlim ht
     exact ⟨t1, t1', h1, hr1, hs1⟩
   · intro hnat
-    obtain ⟨t2, h2, _, _, hc2⟩ := same_rendering_ctor a specs t ha hn hr hne hnat
+    obtain ⟨t2, h2, _, _, hc2⟩ := same_rendering_ctor a specs t ha hn hr hne hnat hmod
     have hshape : t2.records = t.records ∧ t2.header = t.header ∧ t2.footer = t.footer ∧
         (t2.fmt.limF, t2.fmt.limL) = (match visOf t.fmt with | some l => l | Option.none => (Option.none, Option.none)) := by
       have hcols := ctorCols_pcolOf (mkFields 0 specs) t.fmt.cols (by rw [← hi.fields_eq]; exact hi.colsOk)
@@ -240,7 +247,7 @@ theorem fieldless (a : CtorArgs) (ha : a.fields = Option.none) (t : Tbl) (h : mk
     (∀ sp ∈ specsOf t.fmt.fields, NameOk sp.name) ∧
     Reach { a with fields := some (specsOf t.fmt.fields) } t :=
   have h' := mkTable_fieldless a ha t h
-  ⟨h'.1, h'.2, Reach.new t h'.1⟩
+  ⟨h'.1, h'.2, Reach.new _ t h'.1⟩
 
 /-- The invariants behind the three theorems hold after every history: printing never depends on
 the stored widths, and a `False` skipped-lines flag is the truth about the table. -/
@@ -254,7 +261,7 @@ goes through constructor, printing and both routes in the kernel. -/
 
 private def demoArgs : CtorArgs :=
   { records := [[Val.int 1, Val.str "abc".toList], [Val.int 22, Val.str "defgh".toList]],
-    fields := some [⟨"a".toList, .dflt, .none⟩, ⟨"b".toList, .dflt, .none⟩],
+    fields := some [⟨"a".toList, .dflt, .none, Option.none⟩, ⟨"b".toList, .dflt, .none, Option.none⟩],
     fmt := some "a:2-5,b!:1-9;3:2".toList, limits := Option.none, header := Option.none,
     footer := Option.none, skip := Option.none }
 
@@ -272,5 +279,20 @@ example : (mkTable demoArgs >>= fun t => (parseFmt (fmtToStr t.fmt)).map (fun p 
     = .ok (some (some 3, some 2)) := by decide +kernel
 
 example : NameOk "long_field.name".toList := nameOk_of_all _ (by decide)
+
+/-! A free-text modifier with `/` inside (a strftime pattern of a user-written date type): the name
+ends at the *first* `/`. -/
+
+example : parseCol "when/%d/%m/%Y!:4-20(10)".toList
+    = .ok ⟨"when".toList, some "%d/%m/%Y".toList, true, Option.none, .range 4 20⟩ := by decide +kernel
+
+example : ModOk "%d/%m/%Y".toList := by
+  refine ⟨by decide, ?_⟩
+  intro c hc
+  have : "%d/%m/%Y".toList.getLast? = some 'Y' := by decide
+  rw [this] at hc
+  cases hc
+  unfold isSpace
+  decide
 
 end C13
